@@ -38,3 +38,19 @@ def single_quote_path_line():
     if r.get("crash"):
         return ["C17/probe-aborted"], [r["crash"]]
     return (["C17/panic-parse"], vs[:1]) if vs else ([], [])
+
+
+def file_name_wrapped_in_double_quotes():
+    """D52 (fixed): a tracked file named `"x"` (the name itself begins and ends with a double quote, no whitespace) gets an AI line:
+    the path was written unquoted, and every reader strips the quotes, so the note listed a file `x` that the commit does not contain."""
+    from .c02 import _mk
+    s = _mk("d52", files=1)
+    try:
+        s.human_write('"x"', [s.line("human") for _ in range(3)]); s.commit_all("init")
+        cur = s.read('"x"')
+        s.ai_write("S1", '"x"', cur + [s.line("S1")]); s.commit_all("ai")
+        s.check_notes("w")
+        s.check_blame_tip("w", rule="C17")
+        return s.kinds()
+    finally:
+        s.destroy()
